@@ -67,6 +67,15 @@ class Codec:
         for l in impl + model:
             if l.startswith("BADCASE") or l.startswith("PARSEERROR"):
                 raise MachineryError("malformed case reached a runner: " + l[:300])
+        # the message version has no accessor; when the harness could not observe it at all ("M ?") it is not compared
+        for k, (a, b) in enumerate(zip(impl, model)):
+            if " M ? " in a:
+                i = a.index(" M ? ")
+                pre = a[:i].count(" ")
+                bt = b.split(" ")
+                if len(bt) > pre + 2 and bt[pre + 1] == "M":
+                    impl[k] = a[:i] + " M " + bt[pre + 2] + " " + a[i + 5:]
+                    self.chk.count("version-unobservable")
         return impl, model
 
     def ask_model(self, lines):
